@@ -159,7 +159,7 @@ def r1_census(ctx, M):
             continue
         if fn == spn:
             outs = []
-            for label, p, cs in MP.stream_cases():
+            for label, p, cs in MP.stream_cases(sroles):
                 outs += MP.run_case(ctx, sadt, sroles, spn, p, cs)
         elif fn == inner:
             outs = M["outs"]
